@@ -378,7 +378,7 @@ def run(ctx):
     if not build_driver(ctx, "C11"):
         return
     cases = gen_cases(ctx)
-    outs = run_driver(ctx, "C11", "\n".join(to_input(c) for c in cases) + "\n")
+    outs = run_driver(ctx, "C11", [(to_input(c)) + "\n" for c in cases])
     if outs is None or len(outs) != len(cases):
         ctx.broke("correspondence", "drv_C11", "driver returned %s lines for %d cases; rc=%s %s" % (None if outs is None else len(outs), len(cases), getattr(ctx, "driver_rc", "?"), getattr(ctx, "driver_err", "")))
         return
